@@ -40,12 +40,13 @@ Import ListNotations.
 KEYS = ['result', 'k1', 'k2']          # key atoms 0..2, None = whole section
 KWARGS = ['x', 'y']                    # keyword names of the injected functions
 FUNC_NAMES = ['f', 'f', 'g', '<lambda>', '<lambda>', 'g',
-              'h', 'h', '<lambda>', '<lambda>', 'method', 'method', 'tagged', 'tagged', 'e', 'e']
+              'h', 'h', '<lambda>', '<lambda>', 'method', 'method', 'tagged', 'tagged', 'e', 'e',
+              'cm', 'cm', 'call', 'call']
 NF = len(FUNC_NAMES)
 # functions that are easily mistaken for one another: same name, and from index
 # 6 on also the same code object / source / underlying function
 SIBLING = {0: 1, 1: 0, 2: 5, 5: 2, 3: 4, 4: 3, 6: 7, 7: 6, 8: 9, 9: 8, 10: 11, 11: 10,
-           12: 13, 13: 12, 14: 15, 15: 14}
+           12: 13, 13: 12, 14: 15, 15: 14, 16: 17, 17: 16, 18: 19, 19: 18}
 MKKEYS = ['k0', 'k1', 'k2', 'k3', 'k4']   # keyword arguments of make(); factories preset k0, k1 (k2)
 SUBKEYS = ['env', 'umask']             # subprocess arguments
 NSLOTS = {'use': 1, 'map': 2, 'make': 1, 'stats': 1, 'get': 1}
@@ -104,6 +105,16 @@ class FakePopen:
     terminate = kill
 
 
+class Fresh:
+    '''an alphabet entry that yields a new (equal) callable object at every use'''
+    def __init__(self, getter):
+        self.getter = getter
+
+
+def fetch(entry):
+    return entry.getter() if isinstance(entry, Fresh) else entry
+
+
 def make_funcs():
     '''function alphabet: two different functions named f, g, two lambdas, a
     partial that carries the name g'''
@@ -145,7 +156,11 @@ def make_funcs():
 
         def method(self, *args, **kwargs):
             return ('F', self.tag, args, kwargs)
-    funcs += [Obj(10).method, Obj(11).method]                          # one method, two objects
+    # callables that are EQUAL BUT NOT IDENTICAL from one request to the next: the
+    # alphabet entry is fetched anew for every request (Fresh), as user code does
+    # when it writes conv.scale twice.  Equal callables = the same function.
+    obj10, obj11 = Obj(10), Obj(11)
+    funcs += [Fresh(lambda: obj10.method), Fresh(lambda: obj11.method)]   # one method, two objects
     for tag in (12, 13):                                               # partials of one function
         part = functools.partial(tagged, tag)
         functools.update_wrapper(part, tagged)
@@ -154,7 +169,31 @@ def make_funcs():
         glob = {'TAG': tag}
         exec("def e(*args, **kwargs):\n    return ('F', TAG, args, kwargs)\n", glob)  # noqa
         funcs.append(glob['e'])
-    assert len(funcs) == NF and [fn.__name__ for fn in funcs] == FUNC_NAMES
+
+    class Kbase:
+        @classmethod
+        def cm(cls, *args, **kwargs):
+            return ('F', cls.tag, args, kwargs)
+    k16 = type('K16', (Kbase,), {'tag': 16})
+    k17 = type('K17', (Kbase,), {'tag': 17})
+    funcs += [Fresh(lambda: k16().cm), Fresh(lambda: k17.cm)]     # class method, via instance / class
+
+    class Call:
+        '''callable object with value equality'''
+        def __init__(self, tag):
+            self.tag = tag
+            self.__name__ = 'call'
+
+        def __call__(self, *args, **kwargs):
+            return ('F', self.tag, args, kwargs)
+
+        def __eq__(self, other):
+            return isinstance(other, Call) and other.tag == self.tag
+
+        def __hash__(self):
+            return hash(('Call', self.tag))
+    funcs += [Fresh(lambda: Call(18)), Fresh(lambda: Call(19))]
+    assert len(funcs) == NF and [fetch(fn).__name__ for fn in funcs] == FUNC_NAMES
     return funcs
 
 
@@ -198,7 +237,7 @@ class World:
         for ur in case['useruns']:
             obj = UseRun.from_factory(self.facs[ur['fac']])
             for fid in ur['posts']:
-                obj = obj.map(self.funcs[fid])
+                obj = obj.map(fetch(self.funcs[fid]))
             self.useruns.append(obj)
             if ur['posts']:
                 self.ur_fac.append(len(self.fac_params))
@@ -279,7 +318,7 @@ def run_op(world, k, op):
             if any(t is None for t in tasks):
                 return None
             deps_type = 'soft' if soft else 'hard'
-            func = world.funcs[fid]
+            func = fetch(world.funcs[fid])
             if how == 'direct':
                 inj_args = [(t, key_of(key)) for t, (_, key, kw) in zip(tasks, injs) if kw is None]
                 inj_kwargs = {KWARGS[kw]: (t, key_of(key))
@@ -304,7 +343,7 @@ def run_op(world, k, op):
             use = world.uses.get(opi)
             if use is None:
                 return None
-            new = use.map(world.funcs[fid])
+            new = use.map(fetch(world.funcs[fid]))
             world.uses[k] = new
             task = new.get_task()
             below = list(task.depends_on)
@@ -344,7 +383,7 @@ def run_op(world, k, op):
                     made.append(fac.make(name=tag) if i % 2 else fac.make(extra_args=[tag]))
                 else:
                     deco = world.useruns[which % len(world.useruns)](None, extra_args=[tag])
-                    task = deco(world.funcs[i % NF]).get_task()
+                    task = deco(fetch(world.funcs[i % NF])).get_task()
                     made.append(task)
                     made += list(task.depends_on)
             return []
@@ -365,7 +404,7 @@ def run_op(world, k, op):
             if kwargs is None:
                 return None
             deco = world.useruns[uri](None if kw is None else KWARGS[kw], **kwargs)
-            use = deco(world.funcs[fid])
+            use = deco(fetch(world.funcs[fid]))
             world.uses[k] = use
             chain = [use.get_task()]
             for _ in range(nslots(world.case, op) - 1):
@@ -1106,7 +1145,7 @@ def corpus():
               ['use', f2, [[a, 0, None]], False, False, 'stack'],
               ['use', f1, [[a, 0, None]], False, False, 'using'],
               ['map', 0, f1], ['map', 0, f2]], collect=[[['s', 0], ['s', 1]]])
-        for f1, f2 in ((6, 7), (8, 9), (10, 11), (12, 13), (14, 15))
+        for f1, f2 in ((6, 7), (8, 9), (10, 11), (12, 13), (14, 15), (16, 17), (18, 19))
     ] + [
         case([['userun', 0, mk(extra=[1]), None, 6], ['userun', 1, mk(extra=[1]), None, 7],
               ['userun', 0, mk(extra=[1]), None, 7]],
@@ -1413,9 +1452,11 @@ def gen_case(rng, long_n=None):
 
 RULE = ('corpus (the reproduced cache collisions, stacked decorators, map/UseRun chains, name '
         'clashes, a dependency cycle) + random histories of 2..12 operations (use / wrap a wrapper / get_task again / map / make / '
-        'userun / task_stats / test_stats) over 16 functions (two named f, two lambdas, a partial '
+        'userun / task_stats / test_stats) over 20 functions (two named f, two lambdas, a partial '
         'named g; pairs sharing one code object: closures of one factory, lambdas of one loop, one '
-        'method bound to two objects, partials of one function, exec of one source), 1..4 hand-made tasks, 1..3 factories (same-named ones), keys, positional / '
+        'method bound to two objects, partials of one function, exec of one source; bound methods, '
+        'class methods and callable objects with value equality are fetched anew (equal, not identical) '
+        'for every request), 1..4 hand-made tasks, 1..3 factories (same-named ones), keys, positional / '
         'keyword, hard / soft, serialize; 45% of the operations repeat an earlier one identically '
         'or with one component changed; non-trivial = some request is served from a cache and at '
         'least two tasks are generated; distinct by case content')
@@ -1427,7 +1468,7 @@ def run(ctx):
     rng = ctx.rng
     cases = corpus()
     ctx.count('corpus', len(cases))
-    nrand = 1200 if ctx.tier == 'quick' else 20000
+    nrand = 1000 if ctx.tier == 'quick' else 20000
     cases += long_corpus(ctx.tier)
     # long histories: 1 % of the random ones (sizes beyond any plausible bound of a cache)
     sizes = [1100, 1300, 1600, 2100] if ctx.tier == 'quick' else [1100, 1600, 2100, 3000, 5000]
